@@ -13,7 +13,12 @@
    kind 2 (vec): sub
          0 Linspace lo hi num | [res]            1 Logspace lo hi num base | [res]
          2 Sum [xs] | res                        3 Map/Vectorize f [xs] | [map res] [vectorize res] unmodified
-         4 Concat n {[xs]}* | [res] unmodified *)
+         4 Concat n {[xs]}* | [res] unmodified
+   kind 3 (IN-PLACE steps: ONE Sample whose backing arrays Xs and Weights are overwritten in place between the steps -
+       reweighting, new values, both, another length - every Sample query re-observed after each overwrite):
+       nsteps { sorted hasw [xs] [ws] | the 19 observations of kind 0 }*
+       [xs] [ws] are the contents current at that step; the statistics are pure functions of the current contents, so
+       every step must pass the kind-0 check on its own (this is what exposes a result memoised on storage identity). *)
 From MM Require Import Base.Num Base.GASort Model.Sample.
 From Coq Require Import Qround.
 Local Open Scope Q_scope.
@@ -93,6 +98,7 @@ Definition T_GEOBRACKET := 4096%Z.
 Definition T_ALLZEROW := 8192%Z.   (* weighted, every weight zero: Mean and GeoMean must be NaN *)
 Definition T_WNONPOS := 16384%Z.
 Definition T_BIG := 32768%Z.        (* values beyond 1e300: sums / squared deviations overflow float64 although the mean does not *)
+Definition T_INPLACE := 131072%Z.    (* in-place overwrite steps on one backing array (kind 3) *)
 Definition T_LONG := 65536%Z.       (* at least 4096 values *)    (* weighted, a value <= 0 carries weight: GeoMean must be NaN *)
 
 (* ---------- float64 overflow of sums (values near 1e308) ----------
@@ -366,7 +372,8 @@ Definition vec_len (v : vcase) : nat :=
 Inductive c09case :=
 | KStats (sorted hasw : bool) (xs ws : list Q) (o : stat_obs)               (* kind 0 *)
 | KHist (sorted hasw : bool) (xs ws : list Q) (ops : list (hop * hobs))     (* kind 1 *)
-| KVec (v : vcase).                                                         (* kind 2 *)
+| KVec (v : vcase)                                                          (* kind 2 *)
+| KSteps (steps : list (bool * bool * list Q * list Q * stat_obs)).         (* kind 3 *)
 
 Definition p_line : parser c09case := fun line =>
   match line with
@@ -377,6 +384,10 @@ Definition p_line : parser c09case := fun line =>
       (do sorted <- pbool; do hasw <- pbool; do xs <- plist pQ; do ws <- plist pQ;
        do ops <- plist_any p_hop; pend (KHist sorted hasw xs ws ops)) rest
   | 9%Z :: 2%Z :: rest => (do v <- p_vcase; pret (KVec v)) rest
+  | 9%Z :: 3%Z :: rest =>
+      (do steps <- plist_any (do sorted <- pbool; do hasw <- pbool; do xs <- plist pQ; do ws <- plist pQ; do o <- p_stat_obs;
+                              pret (sorted, hasw, xs, ws, o));
+       pend (KSteps steps)) rest
   | _ => None
   end.
 
@@ -386,6 +397,21 @@ Fixpoint asc (l : list Q) : bool :=
   match l with x :: ((y :: _) as t) => Qle_bool x y && asc t | _ => true end.
 Definition sample_ok (sorted hasw : bool) (xs ws : list Q) : bool :=
   (negb hasw || ((length ws =? length xs)%nat && forallb (Qle_bool 0) ws)) && (negb sorted || asc xs).
+
+(* kind 3: every step is a kind-0 case on the contents current at that step; stop at the first step that is not
+   accepted: pos = index of the step, diag = the step's own position and diagnostics *)
+Fixpoint run_steps (steps : list (bool * bool * list Q * list Q * stat_obs)) (i tag : Z) : list Z :=
+  match steps with
+  | [] => verdict V_OK tag (-1) []
+  | (sorted, hasw, xs, ws, o) :: rest =>
+      if negb (sample_ok sorted hasw xs ws) then verdict V_MALFORMED 0 (-1) [] else
+      match check_stats sorted hasw xs ws o with
+      | code :: t :: p :: d =>
+          let tag' := Z.lor tag (if (t =? 0)%Z then 0%Z else Z.lor t T_INPLACE) in
+          if (code =? 0)%Z then run_steps rest (i + 1)%Z tag' else verdict code tag' i (p :: d)
+      | _ => verdict V_MALFORMED 0 (-1) []
+      end
+  end.
 
 Definition check_case (c : c09case) : list Z :=
   match c with
@@ -402,6 +428,7 @@ Definition check_case (c : c09case) : list Z :=
       let '(ok, d) := check_vec v in
       let tag := Z.lor T_VEC (if (4096 <=? vec_len v)%nat then T_LONG else 0%Z) in
       if ok then verdict V_OK tag (-1) [] else verdict V_MISMATCH tag 0 d
+  | KSteps steps => run_steps steps 0%Z 0%Z
   end.
 
 Definition check_C09 (line : list Z) : list Z :=
